@@ -16,6 +16,7 @@ import ast
 from ..engine import Analysis, is_call_to, is_suspension, short, where_fn, \
     call_receiver, invoked
 from ..model import AnalysisError
+from ..types import Callee
 from ..norm import equal_algebra, symbols_of
 from .. import rules
 
@@ -23,6 +24,19 @@ PROP = 'C13'
 PIPE = 'usim._basics.pipe.Pipe'
 UNBOUNDED = 'usim._basics.pipe.UnboundedPipe'
 NOTIFICATION = 'usim._primitives.notification.Notification'
+
+
+def _subscribes(path):
+    """[(index, origin of the key)] of `self._subscriptions[key] = share`"""
+    return [(i, rules.origin(path, i, e.node.slice)) for i, e in enumerate(path.events)
+            if e.kind == 'store' and isinstance(e.node, ast.Subscript)
+            and rules.value_text(path, i, e.node.value) == 'self._subscriptions']
+
+
+def _unsubscribes(path):
+    return [(i, rules.origin(path, i, e.node.slice)) for i, e in enumerate(path.events)
+            if e.kind == 'del' and isinstance(e.node, ast.Subscript)
+            and rules.value_text(path, i, e.node.value) == 'self._subscriptions']
 
 
 def _first_arg(event):
@@ -64,17 +78,16 @@ def run(check, an: Analysis):
 
     # ---- P ------------------------------------------------------------------
     exits = {}
-    n_add = 0
+    n_add, fresh = 0, True
     for path in paths:
-        add = [i for i, e in enumerate(path.events)
-               if invoked(e, '_add_subscriber') and e.depth == 0 and e.kind != 'leave']
+        add = _subscribes(path)
         if not add:
             continue
         n_add += 1
-        ident = _first_arg(path.events[add[0]])
-        dels = [i for i, e in enumerate(path.events)
-                if is_call_to(e, '_del_subscriber') and e.depth == 0 and i > add[0]]
-        same = len(dels) == 1 and _first_arg(path.events[dels[0]]) == ident
+        ident = add[0][1]
+        fresh &= len(add) == 1 and ident[0] == 'object()' and ident[1] is not None
+        dels = [d for d in _unsubscribes(path) if d[0] > add[0][0]]
+        same = len(dels) == 1 and dels[0][1] == ident
         out = path.kind if path.kind != 'raise' else 'raise ' + \
             path.outcome[1].cls.rsplit('.', 1)[-1]
         exits.setdefault((out, same), path)
@@ -82,36 +95,42 @@ def run(check, an: Analysis):
                    'a transfer registers its share')
     for (out, ok), path in sorted(exits.items(), key=lambda kv: repr(kv[0])):
         check.instance('P', 'transfer:exit=%s' % out, ok, where_fn(fn),
-                       'the share registered by _add_subscriber is removed exactly once '
-                       'with the same identifier on this kind of exit',
+                       'the share registered in the subscription table is removed exactly '
+                       'once under the same identifier on this kind of exit',
                        path=rules.path_lines(path), analysed=len(paths))
     check.floor('P', 5, 'normal + 4 signal exits of Pipe.transfer')
     # the identifier is private to this transfer
-    values = rules.local_values(fn, ident) if ident and ident.isidentifier() else []
-    fresh = len(values) == 1 and isinstance(values[0], ast.Call) and \
-        ast.unparse(values[0]) == 'object()'
-    check.instance('P', 'transfer:fresh-identifier', fresh, where_fn(fn),
+    check.instance('P', 'transfer:fresh-identifier', fresh and n_add > 0, where_fn(fn),
                    'each transfer registers under a fresh `object()` key')
 
     # ---- K ------------------------------------------------------------------
-    for name in ('_add_subscriber', '_del_subscriber'):
-        callee = an.callee(PIPE, name)
-        for path in an.paths(callee):
-            if not path.normal:
-                continue
-            mut = [i for i, e in enumerate(path.events)
-                   if e.kind in ('store', 'del') and e.get('base') == 'self._subscriptions']
-            replan = any(is_call_to(e, '_throttle_subscribers') for e in
-                         path.events[(mut[0] if mut else 0):])
-            check.instance('K', '%s:replans' % name, bool(mut) and replan,
-                           where_fn(callee.fn),
-                           'the subscription table is changed and the scale recomputed',
-                           path=rules.path_lines(path))
+    # every change of the subscription table re-plans within the same atomic block
+    replan_ok, n_mut, bad = True, 0, None
+    for method in sorted(an.p.functions.values(), key=lambda f: f.qn):
+        if method.cls is None or method.cls.qn != PIPE or method.name == '__init__' or \
+                isinstance(method.node, ast.Lambda):
+            continue
+        for path in an.paths(Callee(method, PIPE)):
+            muts = [i for i, _k in _subscribes(path)] + [i for i, _k in _unsubscribes(path)]
+            for index in muts:
+                if path.events[index].fn is not method:
+                    continue  # seen from the function that contains the statement
+                n_mut += 1
+                block = rules.atomic_block(path, index)
+                later = [e for e in block if rules.event_index(path, e) > index]
+                if not any(is_call_to(e, '_throttle_subscribers') and e.kind != 'leave'
+                           for e in later):
+                    replan_ok, bad = False, bad or (path, index)
+    check.instance('K', 'subscriptions:replans', replan_ok and n_mut >= 2, where_fn(fn),
+                   'every change of the subscription table is followed by '
+                   '_throttle_subscribers() before anything else can run '
+                   '(%d changes on paths)' % n_mut,
+                   path=rules.path_lines(*bad) if bad else None, analysed=n_mut)
     for fn2, stmt, target, recvs in rules.attribute_stores(an, '_subscriptions', PIPE):
-        ok = fn2.name in ('__init__', '_add_subscriber', '_del_subscriber')
+        ok = fn2.cls is not None and fn2.cls.qn == PIPE
         check.instance('K', 'writer:_subscriptions:%s' % short(fn2.qn), ok,
                        '%s:%d' % (fn2.module.relpath, stmt.lineno),
-                       'only the subscriber bookkeeping writes the table', nontrivial=False)
+                       'only the pipe itself writes the table', nontrivial=False)
     throttle = an.callee(PIPE, '_throttle_subscribers')
     n_scale = 0
     for path in an.paths(throttle):
@@ -201,15 +220,24 @@ def _check_formulas(check, an: Analysis, transfer, throttle, paths):
                        'no accumulating `x += elapsed * rate` statement in the window loop')
         return
     verdict_delay, n_delay, bad_delay = True, 0, None
+    share_ok, n_share = True, 0
     verdict_acc, n_acc, bad_acc = True, 0, None
     verdict_order, bad_order = True, None
     for path in paths:
-        add = [i for i, e in enumerate(path.events) if is_call_to(e, '_add_subscriber')
-               and e.kind != 'leave' and e.depth == 0 and isinstance(e.node, ast.Call)
-               and len(e.node.args) == 2]
+        add = [(i, e) for i, e in enumerate(path.events) if e.kind == 'store'
+               and isinstance(e.node, ast.Subscript) and e['value'] is not None
+               and rules.value_text(path, i, e.node.value) == 'self._subscriptions']
         if not add:
             continue
-        limit = rules.value_text(path, add[0], path.events[add[0]].node.args[1], keep=(acc,))
+        limit = rules.value_text(path, add[0][0], add[0][1]['value'], keep=(acc,))
+        asked = rules.path_atoms(path, 0, add[0][0]).get(('isnone', params[2])) \
+            if len(params) > 2 else None
+        n_share += 1
+        if not ((asked is False and limit == params[2]) or
+                (asked is True and limit == 'self.throughput') or
+                (asked is None and limit == '%s if %s is not None else self.throughput' % (
+                    params[2], params[2]))):
+            share_ok = False
         for index, event in enumerate(path.events):
             if event.kind == 'call' and is_call_to(event, 'suspend') and event.depth == 0:
                 kw = [k.value for k in event.node.keywords if k.arg == 'delay']
@@ -266,6 +294,10 @@ def _check_formulas(check, an: Analysis, transfer, throttle, paths):
                 if not ok:
                     verdict_order = False
                     bad_order = bad_order or (path, index)
+    check.instance('A', 'transfer:share=limit', share_ok and n_share > 0, where_fn(fn),
+                   'the share registered for a transfer is the limit it asked for, the '
+                   'pipe\'s throughput without one -- unclamped, so that rates stay '
+                   'proportional to the limits (%d registrations on paths)' % n_share)
     check.instance('A', 'transfer:planned-delay', verdict_delay and n_delay > 0, where_fn(fn),
                    'delay == (total - transferred) / (limit * scale) at every suspend '
                    '(%d sites on paths)%s' % (n_delay, '' if verdict_delay else
@@ -315,6 +347,8 @@ def _check_formulas(check, an: Analysis, transfer, throttle, paths):
     upaths = an.paths(utransfer)
     verdict, waits = True, 0
     for path in upaths:
+        if rules.contradicts_constants(path):
+            continue
         for index, event in enumerate(path.events):
             if event.kind == 'call' and is_call_to(event, 'suspend') and event.depth == 0:
                 waits += 1
@@ -323,6 +357,11 @@ def _check_formulas(check, an: Analysis, transfer, throttle, paths):
                 verdict &= got is not None and equal_algebra(
                     got, '%s / %s' % (uparams[1], uparams[2]))
                 limited = rules.fact_value(event, ('isnone', uparams[2]))
+                atoms = rules.path_atoms(path, 0, index)
+                if atoms.get(('infeasible', '')):
+                    continue
+                if limited is None:
+                    limited = atoms.get(('isnone', uparams[2]))
                 if limited is not False:
                     check.instance('A', 'unbounded:unlimited-no-wait', False, event.where,
                                    'an unlimited transfer must not wait')
